@@ -123,8 +123,8 @@ type lexer struct {
 }
 
 var (
-	verbatimOpenMatcher = regexp.MustCompile(`^[ \t\n]*verbatim[ \t\n]*-?%}`)
-	verbatimEndMatcher  = regexp.MustCompile(`{%-?[ \t\n]*endverbatim[ \t\n]*-?%}`)
+	verbatimOpenMatcher = regexp.MustCompile(`^[ \t\n\r]*verbatim[ \t\n\r]*-?%}`)
+	verbatimEndMatcher  = regexp.MustCompile(`{%-?[ \t\n\r]*endverbatim[ \t\n\r]*-?%}`)
 )
 
 // nextToken returns the next token emitted by the lexer.
@@ -587,7 +587,7 @@ func lexPrintClose(l *lexer) stateFn {
 }
 
 func isSpace(str string) bool {
-	return str == " " || str == "\t" || str == "\n"
+	return str == " " || str == "\t" || str == "\n" || str == "\r"
 }
 
 func isName(str string) bool {
